@@ -1,6 +1,7 @@
 import VtProofs.Coverage
 import VtModel.Pipeline
 import VtProps.C06
+import VtProofs.PipeCovers
 /-!
 # C03 — the advertised coverage pyramid contains every tile a source can return
 
@@ -288,6 +289,23 @@ theorem merged_covers {β : Type} (ops : Ops β) (cover : Pyramid) (srcs : List 
     | cons b bs => exact key srcs (b :: bs) hs hu hm (by simp)
   | err => rw [hm] at h; cases h
   | panic => rw [hm] at h; cases h
+
+/-- the union pyramid of overlay / merge (`include_bbox_pyramid` of every source) really contains
+    every source pyramid – this discharges the hypothesis `hu` of `overlay_covers` / `merged_covers` -/
+theorem union_contains {β : Type} (srcs : List (Op β)) (hs : ∀ o ∈ srcs, o.src.cover.WF)
+    (first r : Pyramid) (hf : first.WF) (h : unionCover first srcs = .ok r) (o : Op β) (ho : o ∈ srcs)
+    (c : Coord) (hc : Pyramid.has o.src.cover c = true) : Pyramid.has r c = true :=
+  VtProofs.PipeCovers.unionCover_has srcs hs first r hf h c (Or.inr ⟨o, ho, hc⟩)
+
+/-- **every nesting**: by induction over the pipeline syntax (`from_container` leaves,
+    `filter_zoom`, `filter_bbox`, `from_overlayed`, `from_vectortiles_merged`,
+    `vectortiles_update_properties`, nested arbitrarily): if every leaf source is good (C02) and
+    covers its tiles, then every pipeline that builds covers its tiles – whatever a lookup of the
+    built operation returns lies inside the pyramid it advertises. -/
+theorem pipe_covers {β : Type} (ops : Ops β) (env : Nat → Outcome (Op β))
+    (henv : ∀ i o, env i = .ok o → Good o.src ∧ Covers o.src)
+    (p : Pipe) (o : Op β) (h : build ops env p = .ok o) : Covers o.src :=
+  (VtProofs.PipeCovers.build_gc ops env henv p o h).2
 
 /-- converter without a requested pyramid (`versatiles serve` with `--flip-y` or `--swap-xy`): see
     `VtProps.C06.convert_covers_partial`; with a requested pyramid the statement is *false* on the
